@@ -73,6 +73,16 @@ def sqrt_bounds(x):
     while hi * hi < x: hi = hi * (1 + Fr(1, 10 ** 13))
     return lo, hi
 
+def tolerance_corner(v, st):
+    """some cyclically consecutive triple of the variant's INPUT points is a genuine corner below the library's collinearity
+    tolerance: 0 < |(q - p) x (r - q)|^2 < 1e-10 (an inserted point within 1e-5 / |edge| of a corner makes push drop the corner)"""
+    pts = unflat(fls(v['pts'], st)); m = len(pts)
+    for i in range(m):
+        p_, q_, r_ = pts[i], pts[(i + 1) % m], pts[(i + 2) % m]
+        c2 = len2(cross(sub(q_, p_), sub(r_, q_)))
+        if 0 < c2 < Fr(1, 10 ** 10): return True
+    return False
+
 def measures(v, st):
     """decode one successfully closed variant: exact data of the STORED vertices and the reported values"""
     vs = unflat(fls(v['v'], st)); n = V(fls(v['n'], st))
@@ -160,6 +170,9 @@ def oracle(c, st):
         tper = REL * B['per_hi'] + (M['m'] + B['m'] + 4) * 4 * U * (max(M['maxabs'], B['maxabs']) + 1)
         if v['kind'] in ('shift', 'reverse', 'collinear'):
             sig = {'shift': 'shift-dependence', 'reverse': 'reversal', 'collinear': 'collinear-dependence'}[v['kind']]
+            # class of the recorded finding C10:collinear-dependence:tolerance-corner:*: the INPUT of this variant has a genuine corner
+            # (p, q, r) that the library's absolute collinearity tolerance takes for a straight run: 0 < |pq x qr| < 1e-5
+            if v['kind'] == 'collinear' and tolerance_corner(v, st): sig += ':tolerance-corner'
             if abs(M['area'] - B['area']) > ta:
                 return ('C10:%s:area' % sig, '%s: area %.17g vs base %.17g' % (tag, float(M['area']), float(B['area'])))
             if abs(M['per'] - B['per']) > tper:
